@@ -92,6 +92,9 @@ def _compact(acts):
 
 def _act_from_label(lab):
     name, args = walk.parse_label(lab)
+    if name == "Do":          # the actions of Stream.tla are all instances of Do(record)
+        x = args[0]
+        return {"a": x["a"], "ss": int(x["ss"]), "f": x["f"], "r": x["r"], "S": sorted(x["S"])}
     a = {"a": name, "ss": 0, "f": "", "r": "", "S": []}
     if name == "Write":
         a["ss"], a["f"] = int(args[0]), args[1]
@@ -147,8 +150,7 @@ def run(ctx):
          (two, 1, "1", 2, 0, "FALSE")],             # two readers, lock granularity
         [('"r1"', 2, "1,2,4", 4, 2, "FALSE"),
          (two, 2, "1", 3, 1, "FALSE"),
-         (two, 2, "2", 3, 1, "FALSE"),
-         (two, 2, "4", 3, 1, "FALSE"),
+         (two, 2, "2", 2, 1, "FALSE"),
          (two, 2, "1,2,4", 3, 1, "TRUE")])
     # ---- GEN: behaviours of the Eager granularity, by TLC simulation (and, thorough, an edge cover of the state graph)
     gens = ctx.pick([(2, "1,2", 3, 1, 260), (2, "1,4", 5, 2, 140)],
@@ -177,10 +179,19 @@ def run(ctx):
         except vf.Infra as e:
             stress_failure.append(e)
     jobs.append(stress)
-    if ctx.thorough:          # at most a handful of JVMs at a time
-        res = _par(jobs[:3]) + _par(jobs[3:6]) + _par(jobs[6:])
-    else:
-        res = _par(jobs)
+    def graph(q):
+        # the Eager state graph (implementation state only), dumped by TLC and covered edge by edge
+        name = _cfg(ctx, "Stream_graph_%d.cfg" % q, GRAPH_CFG % dict(q=q))
+        dot = ctx.path("graph_%d.dot" % q)
+        vf.tlc(ctx, "Stream", name, workers=4, timeout=1200, extra=["-dump", "dot,actionlabels", dot],
+               java_opts=["-Xmx8g"])
+        g = walk.load(dot)
+        os.remove(dot)
+        ws, covered, total = walk.edge_cover(g, maxlen=40, seed=int(ctx.seed), limit=4000)
+        return [(q, w) for w in ws], covered, total
+    if ctx.thorough:
+        jobs += [lambda: graph(1), lambda: graph(2)]
+    res = _par(jobs)
     for name, r in zip(mcnames, res[:len(mcs)]):
         _mc_account(ctx, "Stream", name, r)
     ctx.set("exhaustive", True)
@@ -191,21 +202,14 @@ def run(ctx):
     nsim = len(cases)
     if nsim < 50:
         raise vf.Infra("generator produced only %d behaviours" % nsim)
-    cov = None
     if ctx.thorough:
-        for q in (1, 2):
-            name = _cfg(ctx, "Stream_graph_%d.cfg" % q, GRAPH_CFG % dict(q=q))
-            dot = ctx.path("graph_%d.dot" % q)
-            vf.tlc(ctx, "Stream", name, workers=vf.NCPU, timeout=900, extra=["-dump", "dot,actionlabels", dot],
-                   java_opts=["-Xmx12g"])
-            g = walk.load(dot)
-            ws, covered, total = walk.edge_cover(g, maxlen=40, seed=int(ctx.seed), limit=9000)
-            os.remove(dot)
-            cov = (cov[0] + covered, cov[1] + total) if cov else (covered, total)
-            for w in ws:
+        covered = total = 0
+        for ws, c, t in res[len(mcs) + len(gens) + 1:]:
+            covered, total = covered + c, total + t
+            for q, w in ws:
                 cases.append({"run": len(cases), "q": q, "src": "edgecover", "acts": [_act_from_label(lab) for lab, _ in w]})
-        ctx.set("graph_edges_covered", cov[0])
-        ctx.set("graph_edges_total", cov[1])
+        ctx.set("graph_edges_covered", covered)
+        ctx.set("graph_edges_total", total)
     cf = vf.write_ndjson(ctx.path("cases.ndjson"), cases)
 
     # ---- REPLAY on the real code
@@ -220,43 +224,45 @@ def run(ctx):
     drift = [0]
 
     # ---- TV 1: the replayed runs
-    def tv_replay():
-        chunk = 4000
-        for i in range(0, len(recs), chunk):
-            part = recs[i:i + chunk]
-            tf = "C17_trace_%d.ndjson" % i
-            vf.write_ndjson(d + "/" + tf, part)
-            cfg = _cfg(ctx, "TraceStream_%d.cfg" % i, open(d + "/TraceStream.cfg").read())
-            mod = _module(ctx, "TraceStream", "TraceStream_%d" % i, "C17_trace.ndjson", tf)
-            tv = vf.tlc(ctx, mod, cfg, workers=1, timeout=1800, java_opts=["-Xmx8g"])
-            for bad in tv.tagged("BAD"):
-                rec = part[bad["l"] - 1]
-                acts = _compact(rec["steps"][:-1])
-                ctx.violation({"monitor": bad["monitor"], "mode": "replay", "q": rec["q"], "aa": rec["aa"], "acts": acts},
-                              "%s is false on the real Stream (WriteQueueSize=%d, alwaysAvailable=%s) for the schedule [%s]; "
-                              "observed per step (callbacks begun, discard counters): %s"
-                              % (bad["monitor"], rec["q"], rec["aa"], acts,
-                                 [[(c["r"], c["f"], c["pay"][4:6]) for c in s["cbs"]] + [s["disc"]] for s in rec["steps"]]))
-            drift[0] += len(tv.tagged("DRIFT"))
+    def tv_replay_chunk(i, part):
+        tf = "C17_trace_%d.ndjson" % i
+        vf.write_ndjson(d + "/" + tf, part)
+        cfg = _cfg(ctx, "TraceStream_%d.cfg" % i, open(d + "/TraceStream.cfg").read())
+        mod = _module(ctx, "TraceStream", "TraceStream_%d" % i, "C17_trace.ndjson", tf)
+        tv = vf.tlc(ctx, mod, cfg, workers=1, timeout=1800, java_opts=["-Xmx6g"])
+        for bad in tv.tagged("BAD"):
+            rec = part[bad["l"] - 1]
+            acts = _compact(rec["steps"][:-1])
+            ctx.violation({"monitor": bad["monitor"], "mode": "replay", "q": rec["q"], "aa": rec["aa"], "acts": acts},
+                          "%s is false on the real Stream (WriteQueueSize=%d, alwaysAvailable=%s) for the schedule [%s]; "
+                          "observed per step (callbacks begun, discard counters): %s"
+                          % (bad["monitor"], rec["q"], rec["aa"], acts,
+                             [[(c["r"], c["f"], c["pay"][4:6]) for c in s["cbs"]] + [s["disc"]] for s in rec["steps"]]))
+        drift[0] += len(tv.tagged("DRIFT"))
 
-    # ---- TV 2: the free-running stress
-    def tv_stress():
-        schunk = 10
-        for i in range(0, len(srecs), schunk):
-            part = srecs[i:i + schunk]
-            vf.write_ndjson(d + "/C17_stress.ndjson", part)
-            tv = vf.tlc(ctx, "TraceStreamStress", "TraceStreamStress.cfg", workers=1, timeout=1800, java_opts=["-Xmx8g"])
-            for bad in tv.tagged("BAD"):
-                rec = part[bad["l"] - 1]
-                lf = [x for x in rec["lives"] if x["id"] == bad["life"]][0]
-                ctx.violation({"monitor": bad["monitor"], "mode": "stress", "q": rec["q"], "aa": rec["aa"],
-                               "foreign": rec["foreign"]},
-                              "%s is false in stress round %d (WriteQueueSize=%d, alwaysAvailable=%s) for reader life %d: subs=%s "
-                              "add=[%d,%d] remove=[%d,%d] discarded=%d callbacks=%d failed=%s first callbacks %s"
-                              % (bad["monitor"], rec["run"], rec["q"], rec["aa"], lf["id"], lf["subs"], lf["as"], lf["ae"],
-                                 lf["rs"], lf["re"], lf["disc"], len(lf["cbs"]), lf["err"], lf["cbs"][:12]))
+    def tv_stress_chunk(i, part):
+        tf = "C17_stress_%d.ndjson" % i
+        vf.write_ndjson(d + "/" + tf, part)
+        cfg = _cfg(ctx, "TraceStreamStress_%d.cfg" % i, open(d + "/TraceStreamStress.cfg").read())
+        mod = _module(ctx, "TraceStreamStress", "TraceStreamStress_%d" % i, "C17_stress.ndjson", tf)
+        tv = vf.tlc(ctx, mod, cfg, workers=1, timeout=1800, java_opts=["-Xmx6g"])
+        for bad in tv.tagged("BAD"):
+            rec = part[bad["l"] - 1]
+            lf = [x for x in rec["lives"] if x["id"] == bad["life"]][0]
+            ctx.violation({"monitor": bad["monitor"], "mode": "stress", "q": rec["q"], "aa": rec["aa"],
+                           "foreign": rec["foreign"]},
+                          "%s is false in stress round %d (WriteQueueSize=%d, alwaysAvailable=%s) for reader life %d: subs=%s "
+                          "add=[%d,%d] remove=[%d,%d] discarded=%d callbacks=%d failed=%s first callbacks %s"
+                          % (bad["monitor"], rec["run"], rec["q"], rec["aa"], lf["id"], lf["subs"], lf["as"], lf["ae"],
+                             lf["rs"], lf["re"], lf["disc"], len(lf["cbs"]), lf["err"], lf["cbs"][:12]))
 
-    _par([tv_replay, tv_stress])
+    chunk = ctx.pick(4000, 2500)
+    schunk = ctx.pick(10, 14)
+    tvjobs = [lambda i=i: tv_replay_chunk(i, recs[i:i + chunk]) for i in range(0, len(recs), chunk)]
+    tvjobs += [lambda i=i: tv_stress_chunk(i, srecs[i:i + schunk]) for i in range(0, len(srecs), schunk)]
+    width = ctx.pick(4, 6)
+    for i in range(0, len(tvjobs), width):
+        _par(tvjobs[i:i + width])
     drift = drift[0]
     if stress_failure:
         if not ctx.violations:
